@@ -758,6 +758,117 @@ def prepare_fault(chk, rng, tag):
     return sc
 
 
+CAROL = "carol@example.com"
+
+
+def run_multircpt_world(sc):
+    """LMTP transactions with several RCPT TO (distinct users, a user + a role address, the
+    same address twice) for messages with blob-sized parts; EVERY recipient's copy is read back."""
+    txs = sc["txs"]                     # list of (msg index, [recipient addresses])
+    msgs = sc["msgs"]
+    ops = ops_login("s", A) + [{"op": "send", "conn": "s", "data": "s2 LOGOUT\r\n", "until": "tag:s2"},
+                               {"op": "role_create", "email": ROLE}, {"op": "role_assign", "user": A, "role": 1},
+                               {"op": "lmtp_open", "conn": "l1"}, {"op": "send", "conn": "l1", "data": "LHLO x\r\n", "until": "lmtp:1"}]
+    data_pos = []
+    for (mi, rcpts) in txs:
+        sub, wire = lmtp_wire(msgs[mi]["_raw"])
+        ops.append({"op": "send", "conn": "l1", "data": "MAIL FROM:<sender@example.com>\r\n", "until": "lmtp:1"})
+        for r in rcpts:
+            ops.append({"op": "send", "conn": "l1", "data": "RCPT TO:<%s>\r\n" % r, "until": "lmtp:1"})
+        ops.append({"op": "send", "conn": "l1", "data": "DATA\r\n", "until": "lmtp:1"})
+        data_pos.append((len(ops), sub))
+        ops.append({"op": "send", "conn": "l1", "data": C.latin(wire), "until": "lmtp:%d" % len(rcpts), "timeout_ms": 20000})
+    # what every store should hold, in delivery order
+    stores = {}
+    for ti, (mi, rcpts) in enumerate(txs):
+        for ri, r in enumerate(rcpts):
+            stores.setdefault(r, []).append((ti, ri, mi))
+    fetch_pos = {}
+    for rnd in (1, 2):
+        for r in sorted(stores):
+            conn = "f%d%s" % (rnd, r[:3])
+            user = A if r == ROLE else r
+            box = ROLE_BOX if r == ROLE else "INBOX"
+            ops.extend(ops_login(conn, user) + [{"op": "send", "conn": conn, "data": "x1 SELECT %s\r\n" % box, "until": "tag:x1"}])
+            for k in range(len(stores[r])):
+                fetch_pos[(rnd, r, k)] = len(ops)
+                ops.append({"op": "send", "conn": conn, "data": "y%d FETCH %d BODY.PEEK[]\r\n" % (k, k + 1), "until": "tag:y%d" % k, "timeout_ms": 15000})
+            ops.append({"op": "send", "conn": conn, "data": "x9 LOGOUT\r\n", "until": "tag:x9"})
+    res = C.run_ops(ops, timeout=900)
+    if res.get("crashed"):
+        return None, res.get("stderr", "")[:800]
+    obs = res["obs"]
+    replies = []
+    for (pos, sub) in data_pos:
+        recv = C.unlatin(obs[pos].get("recv", ""))
+        replies.append(([l for l in recv.split(b"\r\n") if l], sub))
+    out = {}
+    for r, lst in stores.items():
+        out[r] = []
+        for k, (ti, ri, mi) in enumerate(lst):
+            lines, sub = replies[ti]
+            ok = ri < len(lines) and lines[ri].startswith(b"250")
+            out[r].append({"stored": ok, "submitted": sub, "via": "lmtp/%d-rcpt-transaction(recipient %d: %s)" % (len(txs[ti][1]), ri + 1, r),
+                           "reply": (lines[ri] if ri < len(lines) else b"")[:200], "mi": mi,
+                           "f1": literal_of(C.unlatin(obs[fetch_pos[(1, r, k)]].get("recv", ""))),
+                           "f2": literal_of(C.unlatin(obs[fetch_pos[(2, r, k)]].get("recv", "")))})
+    return out, None
+
+
+def observe_multircpt(chk, sc, res):
+    out, err = res
+    if out is None:
+        chk.broken_obligation("driver crashed in scenario %s: %s" % (sc["tag"], err), {"suite": "world"})
+        return False
+    if not all(d["stored"] for lst in out.values() for d in lst):
+        chk.notes.append("multi-recipient scenario skipped: a recipient was refused (%r)" % [d["reply"][:80] for lst in out.values() for d in lst if not d["stored"]][:1])
+        return False
+    worlds = []
+    for r in sorted(out):
+        items = []
+        for d in out[r]:
+            m = sc["msgs"][d["mi"]]
+            sub = d["submitted"]
+            mm = m
+            if sub != m["_raw"]:
+                try:
+                    mm = parse_message(sub)
+                except ParseError:
+                    mm = m
+            items.append({"msg": mm, "obs": try_parse(d.get("f1")), "idx": d["mi"], "d": d,
+                          "raw": sub if sub == m["_raw"] else None, "bds": m["_bds"], "eah": None})
+            chk.cov["recipient_copies_read_back"] = chk.cov.get("recipient_copies_read_back", 0) + 1
+        worlds.append(items)
+    sc["worlds"] = worlds
+    sc["refused"] = []
+    return True
+
+
+def prepare_multircpt(chk, rng, tag):
+    H = lambda i: [(b"From", b" g%d@x.org" % i), (b"To", b" list@y.org"), (b"Subject", b" several recipients %d" % i)]
+
+    def att(name):
+        payload = bytes(rng.randrange(256) for _ in range(rng.randint(200, 900)))
+        enc = base64.b64encode(payload)
+        return {"k": "leaf", "type": b"application/octet-stream", "charset": b"", "ctname": b"", "cte": b"base64",
+                "disp": b'attachment; filename="' + name + b'"', "filename": name, "cid": b"",
+                "body": CRLF.join([enc[i:i + 76] for i in range(0, len(enc), 76)])}
+
+    def text(n):
+        return {"k": "leaf", "type": b"text/plain", "charset": b"utf-8", "ctname": b"", "cte": b"8bit" if n > 100 else b"", "disp": b"",
+                "filename": b"", "cid": b"", "body": gen_text(rng, n, final_nl=False) if n > 100 else b"short text"}
+    msgs = [{"hdrs": H(1) + [(b"MIME-Version", b" 1.0")], "body": ("multi", b"mixed", [text(10), att(b"one.bin")])},
+            {"hdrs": H(2), "body": ("multi", b"alternative", [text(rng.randint(1100, 1500))])},
+            {"hdrs": H(3) + [(b"Content-Type", b" text/plain; charset=utf-8")], "body": ("single", gen_text(rng, rng.randint(1100, 1700)))},
+            {"hdrs": H(4), "body": ("multi", b"mixed", [att(b"four.bin"), {"k": "multi", "subtype": b"related", "kids": [text(rng.randint(1100, 1400)), text(10)]}])}]
+    sc = prepare(chk, msgs, ["lmtp"] * len(msgs), tag)
+    if sc is None:
+        return None
+    sc["multircpt"] = True
+    sc["txs"] = [(0, [A, B, CAROL]), (1, [B, ROLE]), (2, [CAROL, CAROL]), (3, [ROLE, A, CAROL, B])]
+    return sc
+
+
 ROLE = "sales@example.com"
 ROLE_BOX = "Roles/%s/INBOX" % ROLE
 
@@ -1141,23 +1252,29 @@ def evaluate_all(chk, scenarios):
         return
     role_scs = [sc for sc in scenarios if sc.get("role")]
     fault_scs = [sc for sc in scenarios if sc.get("fault")]
-    scenarios = [sc for sc in scenarios if not sc.get("role") and not sc.get("fault")]
+    multi_scs = [sc for sc in scenarios if sc.get("multircpt")]
+    scenarios = [sc for sc in scenarios if not sc.get("role") and not sc.get("fault") and not sc.get("multircpt")]
     flat = [w for sc in scenarios for w in sc["scen"]]
     from concurrent.futures import ThreadPoolExecutor
     C.build_driver()
     with ThreadPoolExecutor(max_workers=8) as ex:
         ffut = [ex.submit(run_fault_world, sc) for sc in fault_scs]     # first: each waits for SQLite's busy timeout
         rfut = [ex.submit(run_role_world, sc) for sc in role_scs]
+        mfut = [ex.submit(run_multircpt_world, sc) for sc in multi_scs]
         rs = list(ex.map(run_world, flat))
         eahs = list(ex.map(lambda sc: eah_calls([m["_raw"] for m in sc["msgs"]]), scenarios))
         frs = [f.result() for f in ffut]
         rrs = [f.result() for f in rfut]
+        mrs = [f.result() for f in mfut]
     ok = []
     for k, sc in enumerate(scenarios):
         if observe(chk, sc, rs[2 * k:2 * k + 2], eahs[k]):
             ok.append(sc)
     for sc, res in zip(fault_scs, frs):
         if observe_fault(chk, sc, res):
+            ok.append(sc)
+    for sc, res in zip(multi_scs, mrs):
+        if observe_multircpt(chk, sc, res):
             ok.append(sc)
     for sc, res in zip(role_scs, rrs):
         if observe_role(chk, sc, res):
@@ -1181,8 +1298,11 @@ def evaluate_all(chk, scenarios):
         if ev is None:
             chk.broken_obligation("in-Coq evaluation of the C02 cases failed (%s):\n%s" % (",".join(sc["tag"] for sc in ch), (log or "")[-1800:]), {"suite": "coq"})
             return
-        for k, sc in enumerate(ch):
-            judge(chk, sc, ev[2 * k:2 * k + 2])
+        off = 0
+        for sc in ch:
+            nw = len(sc["worlds"])
+            judge(chk, sc, ev[off:off + nw])
+            off += nw
     st = chk.__dict__.get("_c02", {"unclassified": False, "mismatch": []})
     if st["mismatch"] and not st["unclassified"]:
         # implementation != model although no message violates msg_equiv outside the listed classes:
@@ -1249,6 +1369,8 @@ def run(chk):
     # different messages under the same message ids (a message is a message OF A STORE)
     for w in range(1 if chk.tier == "quick" else 6):
         scenarios.append(prepare_role(chk, rng, "role%d" % w, 4 if chk.tier == "quick" else 6))
+    # several recipients in one LMTP transaction: every recipient's copy is read back
+    scenarios.append(prepare_multircpt(chk, rng, "multircpt0"))
     # writes to the blobs table fail while messages with blob-sized parts are stored
     for w in range(1 if chk.tier == "quick" else 2):
         scenarios.append(prepare_fault(chk, rng, "blobfault%d" % w))
@@ -1276,6 +1398,13 @@ def replay(path):
         if out:
             r = out[("L", 1)] if via.startswith("lmtp") else out[("A", 0)]
             print("re-run with the blobs table locked: stored=%s fetched=%r" % (r["stored"], r.get("f1")))
+        return 0
+    if "rcpt-transaction" in via:
+        # one LMTP transaction with three recipients (two users and the role address); every copy is read back
+        out, err = run_multircpt_world({"txs": [(0, [B, CAROL, ROLE])], "msgs": [{"_raw": raw}]})
+        if out:
+            for r in sorted(out):
+                print("re-run, copy of %s: stored=%s fetched=%r" % (r, out[r][0]["stored"], out[r][0].get("f1")))
         return 0
     r, err = run_world([(raw, "lmtp" if via.startswith("lmtp") else "append")])
     if r:
